@@ -79,3 +79,17 @@ PROPS["C08"] = {
         "object-store complete / fail / renew / scavenge bodies are not under contract yet (same logic as the in-memory ones, which are)",
     ],
 }
+
+PROPS["C13"] = {
+    "level": "proof",
+    "technique": "Verus contracts on the extracted update_shard_metadata (in-memory: whole function; object store: the one-attempt body of the CAS loop over a ghost shard store with the conditional-PUT contract) and on ShardRouter::update_routing",
+    "verus": ["c13_generation.rs.in"],
+    "explanation": "",
+    "assumptions": [
+        "conditional PUT: create-if-absent for the \"none\" tag, update only if the stored ETag equals the one given, atomic, no effect on failure (ghost shard store shim)",
+        "stored generations are below u64::MAX (generation + 1 does not overflow)",
+        "DashMap get / insert have map semantics; the in-memory backend's get-then-insert is not atomic under real multi-threading (schedule question, not covered)",
+        "ShardMetadata is abstracted to (shard_id, generation, rest); serde round-trips it",
+        "match-guard desugaring of the ShardNotFound arm (declared rewrite; equivalent because the fall-through arm returns the same error)",
+    ],
+}
